@@ -60,6 +60,10 @@ func epochName(leaf string, epoch int) string {
 // logger and writer-set configuration, the level registry and the global switches.
 func protectedLeaf(leaf string) bool {
 	const r = rootPkg
+	// scratch ghost variables that merely record the latest external call are not protected
+	if strings.HasPrefix(leaf, "G:"+r+".ghost.io") || strings.HasPrefix(leaf, "G:"+r+".ghost.utc") {
+		return false
+	}
 	for _, p := range []string{"G:" + r + ".ghost.", "F:" + r + ".Entry.", "F:" + r + ".dualWriter.", "F:" + r + ".logwr.", "F:" + r + ".filewr.",
 		"E:" + r + ".LogWriter", "M:map[" + r + ".Level]", "M:map[string]" + r + ".Level", "M:map[int]map[" + r + ".Level]"} {
 		if strings.HasPrefix(leaf, p) {
@@ -305,6 +309,8 @@ type Ctx struct {
 	specFuns      map[*ssa.Function]*specDef
 	phLeaves      [][2]string
 	invEntry      []string
+	ptrLeaves     map[string]bool
+	epochNext     map[int]string
 	inInv         bool
 	compSorts     map[string]string
 	nepoch        int
@@ -443,7 +449,14 @@ func (c *Ctx) H(st *State, leaf, sort string) string {
 		return t
 	}
 	name := epochName(leaf, st.epochOf(leaf))
-	c.declare(name, sort)
+	if _, seen := c.declared[name]; !seen {
+		c.declare(name, sort)
+		nx := "$next@0"
+		if ep := st.epochOf(leaf); ep != 0 {
+			nx = c.epochNext[ep]
+		}
+		c.refBoundAxiom(name, leaf, sort, nx)
+	}
 	if c.compSorts == nil {
 		c.compSorts = map[string]string{}
 	}
@@ -451,6 +464,43 @@ func (c *Ctx) H(st *State, leaf, sort string) string {
 	// note: not stored into st.heap so that every state derived from the same
 	// epoch agrees on that version.
 	return name
+}
+
+// refBoundAxiom: a heap component version of unknown content holds only references below the
+// allocation frontier at which it came into being (so later allocations are distinct from them).
+func (c *Ctx) refBoundAxiom(name, leaf, sort, nx string) {
+	if nx == "" || leaf == "$next" {
+		return
+	}
+	inner := sort
+	dim := 0
+	for strings.HasPrefix(inner, "(Array Int ") && dim < 2 {
+		// map components (M:) are indexed by key sorts; only peel reference dimensions
+		if strings.HasPrefix(leaf, "M:") && dim == 1 {
+			break
+		}
+		inner = inner[len("(Array Int ") : len(inner)-1]
+		dim++
+	}
+	var bound func(t string) string
+	switch {
+	case inner == "Slice":
+		bound = func(t string) string { return app("<", app("lref", t), nx) }
+	case inner == "Int" && c.ptrLeaves[leaf]:
+		bound = func(t string) string { return app("<", t, nx) }
+	default:
+		return
+	}
+	defer func(q int) { c.quant = q }(c.quant)
+	c.quant = 0
+	switch dim {
+	case 0:
+		c.assumeAlways(bound(name))
+	case 1:
+		c.assumeAlways(fmt.Sprintf("(forall ((r Int)) (! %s :pattern ((select %s r))))", bound(app("select", name, "r")), name))
+	case 2:
+		c.assumeAlways(fmt.Sprintf("(forall ((r Int) (i Int)) (! %s :pattern ((select (select %s r) i))))", bound(app("select", app("select", name, "r"), "i")), name))
+	}
 }
 
 func (c *Ctx) setH(st *State, leaf, term string) {
@@ -496,8 +546,19 @@ func leaves(t types.Type, path []int, f func(path []int, lt types.Type)) {
 	f(path, t)
 }
 
+func (c *Ctx) noteLeafType(leaf string, lt types.Type) {
+	switch lt.Underlying().(type) {
+	case *types.Pointer, *types.Map:
+		if c.ptrLeaves == nil {
+			c.ptrLeaves = map[string]bool{}
+		}
+		c.ptrLeaves[leaf] = true
+	}
+}
+
 func (c *Ctx) loadLeaf(st *State, p *Ptr, path []int) (string, types.Type) {
 	leaf, lt := leafName(p.Comp, p.T0, path)
+	c.noteLeafType(leaf, lt)
 	ls := sortOf(lt)
 	if ls == "" {
 		c.unsupported("load of composite leaf %s", leaf)
@@ -518,6 +579,7 @@ func (c *Ctx) loadLeaf(st *State, p *Ptr, path []int) (string, types.Type) {
 
 func (c *Ctx) storeLeaf(st *State, p *Ptr, path []int, term string) {
 	leaf, lt := leafName(p.Comp, p.T0, path)
+	c.noteLeafType(leaf, lt)
 	ls := sortOf(lt)
 	if ls == "" {
 		c.unsupported("store of composite leaf %s", leaf)
